@@ -14,9 +14,12 @@ Require Import Hdl21.Base.PyInt Hdl21.Spec.PySlice Hdl21.Model.Slice Hdl21.Model
                Hdl21.Spec.WfDesign Hdl21.Spec.C01ENets Hdl21.Spec.C01FNets Hdl21.Base.Package Hdl21.Base.PrimTable Hdl21.Spec.PkgWf
                Hdl21.Model.Checks Hdl21.Model.C02Checks Hdl21.Model.C01EElab Hdl21.Model.C01FElab Hdl21.Model.C02EPipeline Hdl21.Model.C02FPipeline
                Hdl21.Proofs.C02EProofsNames Hdl21.Proofs.C02FProofsPortRefs Hdl21.Proofs.C02FProofsEnd Hdl21.Proofs.C02FProofsAgree.
+Require Import Hdl21.Base.C01BDesign Hdl21.Spec.C01BWf Hdl21.Spec.C01GLower Hdl21.Model.C01GBundlePasses Hdl21.Model.C02FBundles
+               Hdl21.Proofs.C02FProofsBundles.
 Require Import Hdl21Gen.DefaultPasses.
 Require Import Hdl21.Props.C02E.
-Require Hdl21.Props.C01F.
+Require Hdl21.Props.C01F Hdl21.Props.C01G.
+Require Hdl21.Spec.BundleSpec.
 Open Scope string_scope.
 Open Scope list_scope.
 Open Scope Z_scope.
@@ -201,3 +204,159 @@ Example C02F_ex_loop :
   given_e C01F.ex_loop_design = true /\ frag_f C01F.ex_loop_design = true /\ wf_design C01F.ex_loop_design = Ok tt /\
   frag_ok2 C01F.ex_loop_design = false /\ checked_run2 C01F.ex_loop_xinfo C01F.ex_loop_design = (SOf SPortRefs, Error EFuel).
 Proof. vm_compute. repeat split. Qed.
+
+(* ======================================================== Part B: Bundles ======================================================== *)
+(* Model/C02FBundles.v:checked_bundle_pipeline = InstBundleElabPass (C01G:ib_design) ; ConnTypes on bundle-valued ports
+   (bundle_conntypes: check_bundles_compatible) ; BundleFlattener (C01G:flat_design, with the refusals of fixes/C02-1, C02-2) ;
+   checked_pipeline2 on the flattened design.  Design language: Base/C01BDesign.v (bundle definitions as trees, bundle instances and
+   ports, sub-bundle references, anonymous bundles at any depth, Pairs, arrays). *)
+
+(* 9. the stages in front of the scalar pipeline are the two bundle entries of the regenerated default list, in the list's order
+      (the ConnTypes entry sits between them in the list; ResolvePortRefs too - the model resolves references member-wise after
+      the flattening, the deviation of notes/C01G.md) *)
+Theorem C02F_bundle_stages_follow_default_list :
+  map (fun e : entry => fst (fst e)) (filter (fun e => bundle_pass e || String.eqb (fst (fst e)) "ConnTypes") default_passes)
+  = ["InstBundleElabPass"; "ConnTypes"; "BundleFlattener"].
+Proof. vm_compute. reflexivity. Qed.
+Print Assumptions C02F_bundle_stages_follow_default_list.
+
+(* 10. REJECT-COMPLETENESS WITH BUNDLES, as far as it is proved: whatever the pipeline with bundles accepts
+        - passed InstBundleElabPass (no Pair is left) and the ConnTypes check of every bundle-valued port of every single instance,
+        - was flattened to a design d' that IS the specification's path-based, member-wise lowering of the written design
+          (Spec/C01GLower.v:lower_m with the names Hdl21 computes) whenever bp_wf holds (C01G's fragment: distinct attribute and member
+          names, well-formed definition trees),
+        - and d' is a VALID scalar design (wf_design_reach resp. wf_design, by Part A): every flat member connection has the member's
+          width, every flat port of every instance is connected, no connection goes to a port that does not exist, ...
+        - and p is the package of the unchecked pipeline on d', so C01G_bundle_passes_end_to_end_partial applies to it.
+      _partial: the conclusion is about the lowering, not about Spec/C01BWf.v:wf_bdesign / Spec/C02BundleWf.v:bwf_design directly;
+      members an anonymous bundle has IN EXCESS of the port's Bundle are invisible to the lowering - they are covered by theorem 11. *)
+Theorem C02F_bundle_reject_complete_partial xi d p : checked_bundle_pipeline xi d = Ok p ->
+  exists d1 d', ib_design d = Ok d1 /\ no_pairs d1 = true /\ bundle_conntypes d1 = Ok tt /\ bundle_passes d = Ok d' /\
+    (bp_wf d1 = true -> d' = lower_m fl_impl d1) /\
+    elab_export_model2 xi d' = Ok p /\
+    (given_e d' = true -> frag_f d' = true -> wf_design_reach d') /\
+    (given_e d' = true -> frag_f d' = true -> all_used d' = true -> wf_design d' = Ok tt).
+Proof. exact (bundle_reject_complete xi d p). Qed.
+Print Assumptions C02F_bundle_reject_complete_partial.
+
+(* 11. EVERY FAULT CLASS OF THE STATEMENT THAT CAN SIT ON A BUNDLE CONNECTION IS REJECTED, wherever it is planted: in any module of
+       the design (top or deep), on any instance (single, array, Pair), and - for the first two - at any depth of an anonymous bundle:
+         (a) a bundle owned by another module or by none      mentions_orphan: a name that is no bundle of the module
+         (b) a reference to a non-existent bundle member       mentions_bad_member: b.pre where pre is neither a Signal nor a sub-bundle
+                                                               of b's definition (bp_wf of the design after InstBundleElabPass is used:
+                                                               the flattened scope of b lists exactly the members of its definition)
+         (c) a Pair's anonymous bundle with a member other than p / n (extra member, fixes/C02-2), or without p or n (missing member)
+       and (theorem 12)
+         (d) a bundle instance / sub-bundle reference whose definition differs from the port's in a member name or a member WIDTH
+             at any level (width mismatch through a bundle; missing / extra member between two Bundle definitions).
+       FULL statement (not proved): the same for a member width mismatch / a missing / an extra member INSIDE AN ANONYMOUS BUNDLE on a
+       bundle-valued port (fixes/C02-1): the model refuses them (replace_bundle_conn_checked: EExtra / EMissing; the member's width is
+       judged by the scalar ConnTypes of the pipeline after flattening, covered by theorem 10) - shown on the examples below and by
+       the tie on every mutant of the bundle stream, no general lemma. *)
+Theorem C02F_bundle_faults_rejected_partial xi d m x c : In m (bd_mods d) -> In x (bm_insts m) -> In c (bi_conns x) ->
+  (bi_pair x = false /\ mentions_orphan m (snd c) = true) \/
+  (bi_pair x = false /\ mentions_bad_member m (snd c) = true /\ (forall d1, ib_design d = Ok d1 -> bp_wf d1 = true)) \/
+  (bi_pair x = true /\ (pair_anon_extra (snd c) = true \/ pair_anon_missing (snd c) = true)) ->
+  exists e, checked_bundle_pipeline xi d = Error e.
+Proof. exact (bundle_faults_rejected xi d m x c). Qed.
+Print Assumptions C02F_bundle_faults_rejected_partial.
+
+Theorem C02F_bundle_type_mismatch_rejected xi d d1 m x c : ib_design d = Ok d1 -> In m (bd_mods d1) -> In x (bm_insts m) -> In c (bi_conns x) ->
+  bi_n x <= 0 -> bundle_type_mismatch d1 m x c = true -> exists e, checked_bundle_pipeline xi d = Error e.
+Proof. exact (bundle_type_mismatch_rejected xi d d1 m x c). Qed.
+Print Assumptions C02F_bundle_type_mismatch_rejected.
+
+Theorem C02F_bundle_run_is_pipeline xi d : snd (checked_bundle_run xi d) = checked_bundle_pipeline xi d.
+Proof. exact (checked_bundle_run_pipeline xi d). Qed.
+Print Assumptions C02F_bundle_run_is_pipeline.
+
+(* ---------------------------------------------------------------- non-vacuity, part B ---------------------------------------------------------------- *)
+(* the three designs of Props/C01G.v (nested flipped bundles with anonymous bundles and sub-bundle references, three modules deep;
+   Pairs; arrays with bundle ports) are accepted; bp_wf holds, Spec/C01BWf.v calls them valid; then C01G's end-to-end theorem applies
+   (its hypotheses are the Examples of Props/C01G.v) *)
+Definition bverdict (xi : xinfo) (d : bdesign) : bstage * option err * result unit * bool :=
+  (fst (checked_bundle_run xi d), match snd (checked_bundle_run xi d) with Ok _ => None | Error e => Some e end, wf_bdesign d, bp_wf d).
+
+Example C02F_ex_bundles_accepted :
+  bverdict C01G.exg1_xinfo C01G.exg1 = (SBOf (SOf SDone), None, Ok tt, true) /\
+  bverdict C01G.exg2_xinfo C01G.exg2 = (SBOf (SOf SDone), None, Ok tt, true) /\
+  bverdict C01G.exg3_xinfo C01G.exg3 = (SBOf (SOf SDone), None, Ok tt, true).
+Proof. repeat split; vm_compute; reflexivity. Qed.
+
+(* single faults planted in them.  set_conns d k i cs: instance i of module k gets the connections cs *)
+Definition set_conns (d : bdesign) (k : nat) (i : name) (cs : list (name * bexpr)) : bdesign :=
+  {| bd_mods := map (fun km : nat * bmodule => if Nat.eqb (fst km) k then
+        {| bm_name := bm_name (snd km); bm_ports := bm_ports (snd km); bm_sigs := bm_sigs (snd km); bm_bundles := bm_bundles (snd km);
+           bm_insts := map (fun x => if String.eqb (bi_name x) i then {| bi_name := bi_name x; bi_n := bi_n x; bi_pair := bi_pair x; bi_of := bi_of x; bi_conns := cs |} else x) (bm_insts (snd km));
+           bm_leaves := bm_leaves (snd km) |} else snd km) (combine (seq 0 (Datatypes.length (bd_mods d))) (bd_mods d)); bd_top := bd_top d |}.
+(* Top of exg1: m = Mid(bb = { lo = .., hi = { x = w[0], y = .. }, .. }) *)
+Definition w0 := BXSx (XSlice (XSig 0%N 4) (Idx 0)).
+Definition w3s := BXSx (XConcat [XSlice (XSig 0%N 4) (Idx 3); XSig 1%N 1]).
+Definition top_anon lo hiy rest := [("bb", BXAnon ([("lo", lo); ("hi", BXAnon [("x", w0); ("y", hiy)])] ++ rest))].
+Definition zq := [("z", BXSx (XSig 2%N 1))].
+Definition g1 := bverdict C01G.exg1_xinfo.
+Definition g2 := bverdict C01G.exg2_xinfo.
+Definition g3 := bverdict C01G.exg3_xinfo.
+
+(* DEEP (module Mid, below the top): the whole bundle bb on the port bp {x, y}: different member names *)
+Example C02F_ex_deep_bundle_type_mismatch : g1 (set_conns C01G.exg1 1 "l1" [("bp", BXInst "bb" [])]) = (SBConnTypes, Some EWidth, Error EBadKind, true).
+Proof. vm_compute. reflexivity. Qed.
+Example C02F_ex_deep_reference_to_missing_member : g1 (set_conns C01G.exg1 1 "l1" [("bp", BXInst "bb" ["nosuch"])]) = (SBConnTypes, Some EMissing, Error EMissing, true).
+Proof. vm_compute. reflexivity. Qed.
+(* q is a bundle of Top, not of Mid *)
+Example C02F_ex_deep_bundle_of_another_module : g1 (set_conns C01G.exg1 1 "l1" [("bp", BXInst "q" [])]) = (SBConnTypes, Some EOrphan, Error EOrphan, true).
+Proof. vm_compute. reflexivity. Qed.
+(* the pinned-tree witness class: a member of a NESTED anonymous bundle one bit too narrow - judged after the flattening *)
+Example C02F_ex_anonymous_member_width :
+  g1 (set_conns C01G.exg1 2 "m" (top_anon (BXInst "q" ["hi"]) (BXSx (XSlice (XSig 0%N 4) (Idx 3))) zq)) = (SBOf (SOf SConnTypes), Some EWidth, Error EWidth, true).
+Proof. vm_compute. reflexivity. Qed.
+(* fixes/C02-1: a member the port's Bundle does not have; Spec/C01BWf.v (C01's hypothesis) does not even look at it *)
+Example C02F_ex_anonymous_extra_member :
+  g1 (set_conns C01G.exg1 2 "m" (top_anon (BXInst "q" ["hi"]) w3s (zq ++ [("extra", BXSx (XSig 1%N 1))]))) = (SBFlatten, Some EExtra, Ok tt, true).
+Proof. vm_compute. reflexivity. Qed.
+Example C02F_ex_anonymous_missing_member :
+  g1 (set_conns C01G.exg1 2 "m" (top_anon (BXInst "q" ["hi"]) w3s [])) = (SBFlatten, Some EMissing, Error EMissing, true).
+Proof. vm_compute. reflexivity. Qed.
+Example C02F_ex_anonymous_reference_to_missing_member :
+  g1 (set_conns C01G.exg1 2 "m" (top_anon (BXInst "q" ["nosuch"]) w3s zq)) = (SBFlatten, Some EMissing, Error EMissing, true).
+Proof. vm_compute. reflexivity. Qed.
+Example C02F_ex_anonymous_foreign_bundle :
+  g1 (set_conns C01G.exg1 2 "m" (top_anon (BXInst "foreign" []) w3s zq)) = (SBFlatten, Some EOrphan, Error EOrphan, true).
+Proof. vm_compute. reflexivity. Qed.
+(* ARRAYS (exg3): a member too wide for w and for n*w; the whole bundle bb on the port bp of an array *)
+Example C02F_ex_array_anonymous_member_width :
+  g3 (set_conns C01G.exg3 1 "arr" [("bp", BXAnon [("x", BXSx (XSig 1%N 4)); ("y", BXSx (XSig 1%N 4))])]) = (SBOf (SOf SArrays), Some EWidth, Error EWidth, true).
+Proof. vm_compute. reflexivity. Qed.
+Example C02F_ex_array_bundle_type_mismatch : g3 (set_conns C01G.exg3 1 "ar2" [("bp", BXInst "bb" [])]) = (SBFlatten, Some EExtra, Error EBadKind, true).
+Proof. vm_compute. reflexivity. Qed.
+(* PAIRS (exg2): fixes/C02-2 (a member q), a missing member, a bundle nobody owns, a member of the wrong width *)
+Example C02F_ex_pair_extra_member :
+  g2 (set_conns C01G.exg2 1 "pr" [("a", BXInst "d" []); ("b", BXAnon [("n", BXSx (XSig 0%N 2)); ("p", BXSx (XSig 1%N 2)); ("q", BXSx (XSig 1%N 2))])])
+  = (SBInstBundles, Some EExtra, Ok tt, true).
+Proof. vm_compute. reflexivity. Qed.
+Example C02F_ex_pair_missing_member :
+  g2 (set_conns C01G.exg2 1 "pr" [("a", BXInst "d" []); ("b", BXAnon [("n", BXSx (XSig 0%N 2))])]) = (SBInstBundles, Some EMissing, Error EMissing, true).
+Proof. vm_compute. reflexivity. Qed.
+Example C02F_ex_pair_orphan_bundle :
+  g2 (set_conns C01G.exg2 1 "pr" [("a", BXInst "nosuch" []); ("b", BXSx (XSig 1%N 2))]) = (SBFlatten, Some EOrphan, Error EOrphan, true).
+Proof. vm_compute. reflexivity. Qed.
+Example C02F_ex_pair_member_width :
+  g2 (set_conns C01G.exg2 1 "pr" [("a", BXInst "d" []); ("b", BXAnon [("n", BXSx (XSig 0%N 2)); ("p", BXSx (XSig 2%N 1))])]) = (SBOf (SOf SConnTypes), Some EWidth, Error EWidth, true).
+Proof. vm_compute. reflexivity. Qed.
+
+(* the hypotheses of theorems 11 and 12 on these designs (so the theorems, not only the computation, reject them) *)
+Example C02F_ex_fault_predicates :
+  (exists m x c, nth_error (bd_mods (set_conns C01G.exg1 2 "m" (top_anon (BXInst "foreign" []) w3s zq))) 2 = Some m /\ nth_error (bm_insts m) 0 = Some x /\
+     nth_error (bi_conns x) 0 = Some c /\ bi_pair x = false /\ mentions_orphan m (snd c) = true) /\
+  (exists m x c, nth_error (bd_mods (set_conns C01G.exg1 2 "m" (top_anon (BXInst "q" ["nosuch"]) w3s zq))) 2 = Some m /\ nth_error (bm_insts m) 0 = Some x /\
+     nth_error (bi_conns x) 0 = Some c /\ bi_pair x = false /\ mentions_bad_member m (snd c) = true) /\
+  (exists m x c, nth_error (bd_mods (set_conns C01G.exg1 1 "l1" [("bp", BXInst "bb" [])])) 1 = Some m /\ nth_error (bm_insts m) 0 = Some x /\
+     nth_error (bi_conns x) 0 = Some c /\ bi_n x <= 0 /\ bundle_type_mismatch (set_conns C01G.exg1 1 "l1" [("bp", BXInst "bb" [])]) m x c = true) /\
+  pair_anon_extra (BXAnon [("n", BXSx (XSig 0%N 2)); ("p", BXSx (XSig 1%N 2)); ("q", BXSx (XSig 1%N 2))]) = true /\
+  pair_anon_missing (BXAnon [("n", BXSx (XSig 0%N 2))]) = true.
+Proof.
+  split; [eexists; eexists; eexists; repeat split; vm_compute; try reflexivity|].
+  split; [eexists; eexists; eexists; repeat split; vm_compute; try reflexivity|].
+  split; [eexists; eexists; eexists; repeat split; vm_compute; try reflexivity; discriminate|].
+  split; vm_compute; reflexivity.
+Qed.
